@@ -10,14 +10,14 @@ import coregen as cg
 import corecases as cc
 
 PROP = 'C07'
-LEAN_TARGETS = ['MorphKgc.Props.C07']
+LEAN_TARGETS = ['MorphKgc.Props.C07', 'MorphKgc.Props.C07Now']
 GEN_KEYS = ['join']
 M = 'MorphKgc.Props.C07'
 THEOREMS = [{'name': f'Props.C07.{n}', 'module': M} for n in [
     'C07_gen_merge_shape', 'C07_gen_join_cond_route', 'C07_gen_ref_branch', 'C07_gen_elim_tests', 'C07_gen_translated', 'C07_gen_object_query',
     'C07_merge_is_join', 'C07_join_pairs', 'C07_join_count', 'C07_null_never_matches', 'C07_F3_prefix_clash_raises',
     'C07_branch_is_evalRule', 'C07_rule_is_join', 'C07_refobj', 'C07_refobj_generation_rules',
-    'C07_elim_found_is_shared', 'C07_elim_result', 'C07_elimination_sound', 'C07_elimination_partial', 'C07_repaired_tests',
+    'C07_elim_repaired_is_shared', 'C07_elim_result', 'C07_elimination_sound', 'C07_elimination_partial', 'C07_repaired_tests',
     'C07_elimination_repaired', 'C07_F1_identity_pairing', 'C07_F2_null_key_linked', 'C07_F1_F2_repaired_behaviour',
     'C07_repaired_still_eliminates', 'C07_F4_referencing_map_lost', 'C07_F4_repaired_query']] + [
     {'name': 'Model.mergeFrames_eq_mergeDataP', 'module': 'MorphKgc.Lemmas.Join'},
@@ -26,6 +26,8 @@ THEOREMS = [{'name': f'Props.C07.{n}', 'module': M} for n in [
     {'name': 'Model.mem_evalRule_ref', 'module': 'MorphKgc.Lemmas.JoinRule'},
     {'name': 'Model.ref_rule_refinement', 'module': 'MorphKgc.Lemmas.JoinRefine'},
     {'name': 'Model.elimination_sameOutcome', 'module': 'MorphKgc.Lemmas.JoinElimSound'}]
+# hypothesis-free theorems of the repaired shapes the translator reads from /repo now (Props/C07Now.lean)
+THEOREMS += [{'name': f'Props.C07.{n}', 'module': 'MorphKgc.Props.C07Now'} for n in ['C07_current_elim_shape', 'C07_current_object_query', 'C07_elimination_current', 'C07_shared_model_is_current', 'C07_objects_seen_current']]
 RULE = ('a child triples map with one referencing object map (1-3 join conditions, optional graph maps, optional second plain '
         'predicate-object map) and a parent triples map (subject map over join columns only / other columns / both / constant; optional '
         'own predicate-object map) over two tables with duplicate keys on both sides, NULL keys ("" / nan / JSON null / SQL NULL), '
